@@ -240,6 +240,35 @@ def file_cases(ctx, tmp):
         ctx.case(scen, ln > 0)
         if d['__size__'] != ln or d['SHA1'] != hashlib.sha1(content).hexdigest() or d['BLAKE2B'] != hashlib.blake2b(content).hexdigest():
             ctx.fail('digest-or-size-not-of-whole-content', scen, '')
+        # the size hint (`st_size`) may be wrong - the file grew or shrank after fstat(), or the file system lies -: whatever
+        # the hash set, the empty one included (a size-only entry), the size reported is the number of bytes read
+        import types
+        for hint in sorted({0, 1, max(ln - 1, 0), ln, ln + 1, 2 * ln + 3, 70000, 2000000}):
+            for names in ([], ['SHA1'], ['MD5', 'SHA512']):
+                real_os = gv.os
+
+                class FOS(types.ModuleType):
+                    def __init__(self):
+                        super().__init__('os')
+                        self.__dict__.update(real_os.__dict__)
+                        self.__dict__['fstat'] = self._fstat
+
+                    def _fstat(self, fd, hint=hint):
+                        st = real_os.fstat(fd)
+                        vals = {k: getattr(st, k) for k in dir(st) if k.startswith('st_')}
+                        vals['st_size'] = hint
+                        return types.SimpleNamespace(**vals)
+                gv.os = FOS()
+                try:
+                    d2 = list(gv.get_file_metadata(p, names))[-1]
+                except Exception as e:
+                    d2 = {'exc': type(e).__name__}
+                finally:
+                    gv.os = real_os
+                scen2 = {'op': 'file-with-size-hint', 'len': ln, 'hint': hint, 'names': names}
+                ctx.case(scen2, True)
+                if d2.get('__size__') != ln or any(d2.get(nm) != hashlib.new({'SHA1': 'sha1', 'MD5': 'md5', 'SHA512': 'sha512'}[nm], content).hexdigest() for nm in names):
+                    ctx.fail('digest-or-size-not-of-whole-content', scen2, str({k: (v if k == '__size__' else '...') for k, v in d2.items()}))
         os.unlink(p)
 
 
